@@ -12,9 +12,15 @@ WORD = re.compile(r"[A-Za-z_][A-Za-z0-9_:]*")
 def with_pairs(c, extra_names=()):
     x = recvlib.BY_NAME[c["target"]]
     names = sorted(set(recvlib.all_names(x)) | set(extra_names))
-    words = sorted(set(WORD.findall(c["src"])))
-    c["pairs"] = [(w, n) for w in words for n in names][:600]
+    words = sorted(set(WORD.findall(c["src"])), key=lambda w: (w in names, w))      # misspellings first
+    c["pairs"] = [(w, n) for w in words for n in names][:2000]
+    c["pairs_truncated"] = len(words) * len(names) > 2000
     return c
+
+
+def all_with_pairs(cases):
+    """cases with their similarity pairs; a case whose pair table would be cut is left out (never evaluated on a partial oracle)"""
+    return [c for c in (with_pairs(c) for c in cases) if not c["pairs_truncated"]]
 
 
 def recv_part(R, prop, raw, holds, nontrivial, describe=None, key_fn=None, tag="cases", model_body=None, failed=None):
